@@ -789,8 +789,56 @@ fn berr(e: BuilderError) -> BuildFail {
 
 fn data_array<T: El, D: Dimension>(cfg: &SlotCfg) -> Result<Array<T, D>, BuildFail> {
     let vals: Vec<T> = cfg.data.iter().map(|f| T::from64(f.0)).collect();
-    let a = ArrayD::from_shape_vec(IxDyn(&cfg.shape), vals).map_err(|e| BuildFail::Unsupported(format!("data: {e}")))?;
+    let mut a = ArrayD::from_shape_vec(IxDyn(&cfg.shape), vals).map_err(|e| BuildFail::Unsupported(format!("data: {e}")))?;
+    if cfg.data_lay == Lay::F && cfg.shape.len() >= 2 {
+        // same logical contents, column-major memory order
+        use ndarray::ShapeBuilder;
+        let mut f = ArrayD::from_elem(IxDyn(&cfg.shape).f(), T::from64(0.0));
+        f.assign(&a);
+        a = f;
+    }
     a.into_dimensionality::<D>().map_err(|e| BuildFail::Unsupported(format!("data rank: {e}")))
+}
+
+fn window_ref<'a, T: El>(mut v: ndarray::ArrayViewD<'a, T>, shape: &[usize], lay: Lay) -> ndarray::ArrayViewD<'a, T> {
+    let n = shape.len();
+    for k in 0..n {
+        let d = if lay == Lay::F { shape[n - 1 - k] } else { shape[k] } as isize;
+        let sl = match lay {
+            Lay::C => {
+                if k == 0 {
+                    Slice::new(1, Some(1 + d), 1)
+                } else {
+                    Slice::new(0, Some(d), 1)
+                }
+            }
+            Lay::Window | Lay::F => Slice::new(1, Some(1 + d), 1),
+            Lay::Step2 => Slice::new(1, Some(1 + 2 * d), 2),
+            Lay::Rev => Slice::new(1, Some(1 + d), -1),
+        };
+        v.slice_axis_inplace(Axis(k), sl);
+    }
+    if lay == Lay::F {
+        v = v.reversed_axes();
+    }
+    v
+}
+
+/// a `'static` view with the requested memory layout over a leaked allocation (freed by `keep`)
+fn leak_view<T: El, D: Dimension + 'static>(owned: Array<T, D>, lay: Lay, keep: &mut Keep) -> Result<ArrayView<'static, T, D>, BuildFail> {
+    match lay {
+        Lay::C | Lay::F => {
+            let d: &'static Array<T, D> = leak(owned, keep);
+            Ok(d.view())
+        }
+        _ => {
+            let shape = owned.shape().to_vec();
+            let mut backing = alloc_backing::<T>(&shape, lay, T::poison());
+            window(backing.view_mut(), &shape, lay).assign(&owned.view().into_dyn());
+            let b: &'static ArrayD<T> = leak(backing, keep);
+            window_ref(b.view(), &shape, lay).into_dimensionality::<D>().map_err(|e| BuildFail::Unsupported(format!("view rank: {e}")))
+        }
+    }
 }
 
 fn axis_array<T: El>(v: &[Fb]) -> Array1<T> {
@@ -864,18 +912,18 @@ macro_rules! storages1 {
                 None => finish1!(default_axis; $T, $D, data, $strat, None, None, keep),
             },
             Storage::View => {
-                let d: &'static Array<$T, $D> = leak(data, &mut keep);
-                let x: &'static Array1<$T> = leak(xv.unwrap_or_else(dflt), &mut keep);
-                let sib = <$T as SibEl>::sib1(d.view(), x.view());
-                finish1!($T, $D, d.view(), x.view(), $strat, None, sib, keep)
+                let d = leak_view::<$T, $D>(data, $cfg.data_lay, &mut keep)?;
+                let x = leak_view::<$T, ndarray::Ix1>(xv.unwrap_or_else(dflt), $cfg.x_lay, &mut keep)?;
+                let sib = <$T as SibEl>::sib1(d.clone(), x.clone());
+                finish1!($T, $D, d, x, $strat, None, sib, keep)
             }
             Storage::DataView => {
-                let d: &'static Array<$T, $D> = leak(data, &mut keep);
+                let d = leak_view::<$T, $D>(data, $cfg.data_lay, &mut keep)?;
                 let xs: &'static Array1<$T> = leak($cfg.axis_x().into_iter().map(<$T as El>::from64).collect::<Array1<$T>>(), &mut keep);
-                let sib = <$T as SibEl>::sib1(d.view(), xs.view());
+                let sib = <$T as SibEl>::sib1(d.clone(), xs.view());
                 match xv {
-                    Some(x) => finish1!($T, $D, d.view(), x, $strat, None, sib, keep),
-                    None => finish1!(default_axis; $T, $D, d.view(), $strat, None, sib, keep),
+                    Some(x) => finish1!($T, $D, d, x, $strat, None, sib, keep),
+                    None => finish1!(default_axis; $T, $D, d, $strat, None, sib, keep),
                 }
             }
             Storage::Shared => {
@@ -996,21 +1044,21 @@ macro_rules! storages2 {
                 }
             }
             Storage::View => {
-                let d: &'static Array<$T, $D> = leak(data, &mut keep);
-                let x: &'static Array1<$T> = leak(xv, &mut keep);
-                let y: &'static Array1<$T> = leak(yv, &mut keep);
-                let sib = <$T as SibEl>::sib2(d.view(), x.view(), y.view());
-                finish2!($T, $D, d.view(), x.view(), y.view(), $strat, None, sib, keep)
+                let d = leak_view::<$T, $D>(data, $cfg.data_lay, &mut keep)?;
+                let x = leak_view::<$T, ndarray::Ix1>(xv, $cfg.x_lay, &mut keep)?;
+                let y = leak_view::<$T, ndarray::Ix1>(yv, $cfg.x_lay, &mut keep)?;
+                let sib = <$T as SibEl>::sib2(d.clone(), x.clone(), y.clone());
+                finish2!($T, $D, d, x, y, $strat, None, sib, keep)
             }
             Storage::DataView => {
-                let d: &'static Array<$T, $D> = leak(data, &mut keep);
+                let d = leak_view::<$T, $D>(data, $cfg.data_lay, &mut keep)?;
                 let xs: &'static Array1<$T> = leak(xv.clone(), &mut keep);
                 let ys: &'static Array1<$T> = leak(yv.clone(), &mut keep);
-                let sib = <$T as SibEl>::sib2(d.view(), xs.view(), ys.view());
+                let sib = <$T as SibEl>::sib2(d.clone(), xs.view(), ys.view());
                 if explicit {
-                    finish2!($T, $D, d.view(), xv, yv, $strat, None, sib, keep)
+                    finish2!($T, $D, d, xv, yv, $strat, None, sib, keep)
                 } else {
-                    finish2!(default_axis; $T, $D, d.view(), $strat, None, sib, keep)
+                    finish2!(default_axis; $T, $D, d, $strat, None, sib, keep)
                 }
             }
             Storage::Shared => {
